@@ -710,8 +710,7 @@ func c03clone(cs *c03case) *c03case {
 	c := *cs
 	c.ths = nil
 	for _, th := range cs.ths {
-		t := *th
-		c.ths = append(c.ths, &t)
+		c.ths = append(c.ths, &c03thr{idx: th.idx, decl: th.decl, chunks: th.chunks, kind: th.kind})
 	}
 	return &c
 }
@@ -720,10 +719,10 @@ func c03driver(ctx *verifhlib.Ctx) {
 	log.SetGlobalLogger(zap.NewNop().Sugar())
 	r := verifhlib.NewRng(ctx.Seed)
 	for _, cs := range c03seeds() {
-		c03run(ctx, cs)
 		// the same callers free-running
 		f := c03clone(cs)
 		f.free, f.hops, f.kind = true, nil, cs.kind+"-free"
+		c03run(ctx, cs)
 		c03run(ctx, f)
 	}
 	if ctx.Tier == "thorough" {
